@@ -97,6 +97,8 @@ def mk_nested_case(i, rng):
         k = rng.choice([2, 2, 3])
         qs = vec(k)
         use_rem = rng.random() < 0.3
+        # several `remaining` clauses in one split (accepted at run time): the last one takes the rest, the others nothing
+        extra_rem = rng.randrange(k - 1) if (use_rem and k >= 2 and rng.random() < 0.3) else None
         texts, nodes = [], []
         for j, q in enumerate(qs):
             nested = depth > 0 and rng.random() < (0.6 if j < k - 1 else 0.3)
@@ -110,8 +112,9 @@ def mk_nested_case(i, rng):
                     t, node = "{ %s }" % t, ('inorder', [node])
             else:
                 t, node = leaf()
-            pt = "remaining" if (use_rem and j == k - 1) else portion_text(q, rng.randrange(3))
-            qq = None if (use_rem and j == k - 1) else q
+            is_rem = (use_rem and j == k - 1) or j == extra_rem
+            pt = "remaining" if is_rem else portion_text(q, rng.randrange(3))
+            qq = None if is_rem else q
             if side == "src":
                 texts.append("%s from %s" % (pt, t))
                 nodes.append((qq, node))
